@@ -101,7 +101,20 @@ Definition filter_ok (i : filter_in) (o : filter_out) : bool :=
     else if forallb (fun e => N.leb (fst e) (snd e)) es then match o with Err => true | _ => false end
     else match o with Ok _ | Err => true | _ => false end      (* start > end in the reader answer: only "no crash" *)
   else match o with Ok _ | Err => true | _ => false end.
-Definition filter_judge := judge filter_model filter_oeqb filter_ok (fun _ => 0%N).
+(* ties of the sort key: see the note at [pend_judge] below — Go's sort.Slice is not stable, so with two different
+   executed ranges (or two different reports) that start at the same number the order after the sort, and with it the
+   overlap test, is not determined; such a case (garbage input only) is judged for "no crash" alone *)
+Definition range_tie (a b : range) : bool := N.eqb (r_start a) (r_start b) && negb (N.eqb (r_end a) (r_end b)).
+Fixpoint has_tie {A} (tie : A -> A -> bool) (l : list A) : bool :=
+  match l with [] => false | x :: l' => existsb (tie x) l' || has_tie tie l' end.
+Definition rep_tie (a b : rep) : bool := N.eqb (p_lo a) (p_lo b) && negb (rep_eqb a b).
+Definition filter_sort_tie (i : filter_in) : bool := has_tie rep_tie (fst i) || has_tie range_tie (snd i).
+Definition no_crash {A} (o : res A) : bool := match o with Ok _ | Err => true | _ => false end.
+Definition filter_judge (cs : list (filter_in * filter_out)) : list (N * N) :=
+  judge (fun i => (filter_model i, filter_sort_tie i))
+        (fun m o => filter_oeqb (fst m) (fst o) || (snd m && no_crash (fst o)))
+        (fun i o => if filter_sort_tie i then no_crash (fst o) else filter_ok i (fst o)) (fun _ => 0%N)
+        (map (fun c => (fst c, (snd c, false))) cs).
 
 (* ---------- part pending: getPendingExecutedReports over a scripted reader ----------
    input: the commit reports the reader returns (None = reader error), the executed-range answers the reader gave
@@ -144,7 +157,34 @@ Definition pend_ok (i : pend_in) (o : pend_out) : bool :=
            | _ => false
            end
   end.
-Definition pend_judge := judge pend_model pend_oeqb pend_ok (fun _ => 0%N).
+(* Ties of a sort key.  [sort_by] (Base) is the model of sort.Slice ON UNIQUE KEYS: Go's sort.Slice is not stable, and
+   for more than 12 elements (pdqsort) two elements with the same key can come out in either order.  The reader of an
+   honest destination never produces such a tie (executed ranges of disjoint queries start at different numbers, the
+   committed reports of a chain start at different numbers), but a garbage reader can: two DIFFERENT executed ranges
+   with the same start, or two different reports of one chain with the same start.  Then the order after the sort —
+   and with it whether the overlap test `Start < previousMax` fires — is not determined by the Go language, the model
+   cannot predict it, and the comparison with the model is suspended for that case: any answer that is `Ok` or `Err`
+   is accepted by the correspondence (first thorough-tier false alarm: 1 case in 155 427, thirteen executed ranges
+   with (35,35) and (35,37) among them; the stable order passes the overlap test, pdqsort's order failed it).  The
+   executable property [pend_ok] is still evaluated on the implementation's answer. *)
+Definition pend_sort_tie (i : pend_in) : bool :=
+  let '(crs, tab, _) := i in
+  match crs with
+  | None => false
+  | Some l =>
+      let groups := group_by_chain l in
+      existsb (fun g =>
+        has_tie rep_tie (snd g) ||
+        has_tie range_tie (concat (map (fun e => if N.eqb (fst (fst e)) (fst g)
+                                                  then match snd e with Some rs => rs | None => [] end else []) tab)))
+        groups
+  end.
+Definition pend_model_t (i : pend_in) : pend_out * bool := (pend_model i, pend_sort_tie i).
+Definition pend_oeqb_t (m o : pend_out * bool) : bool :=
+  pend_oeqb (fst m) (fst o) || (snd m && match fst o with Ok _ | Err => true | _ => false end).
+Definition pend_judge (cs : list (pend_in * pend_out)) : list (N * N) :=
+  judge pend_model_t pend_oeqb_t (fun i o => pend_ok i (fst o)) (fun _ => 0%N)
+        (map (fun c => (fst c, (snd c, false))) cs).
 
 (* ---------- part history: rounds of a four-oracle execute DON over a scripted world ----------
    input: the round's state (1 GetCommitReports, 2 GetMessages, 3 Filter) and the world as it was at the first
